@@ -31,6 +31,13 @@ func (c *BlockAddress) String() string {
 
 // Type returns the type of the constant.
 func (c *BlockAddress) Type() types.Type {
+	// The address of a block of a function in a non-zero address space is a
+	// pointer in that address space.
+	if c.Func != nil {
+		if t, ok := c.Func.Type().(*types.PointerType); ok && t.AddrSpace != 0 {
+			return &types.PointerType{ElemType: types.I8, AddrSpace: t.AddrSpace}
+		}
+	}
 	return types.I8Ptr
 }
 
